@@ -29,10 +29,33 @@ SHRINK_PATHS = [("ops",), ("script", "*", "stream")]
 BAD_KINDS = ["missing_field", "out_of_range", "unknown_pgn", "wrong_type", "bad_priority"]
 
 
+ACT_HAS_ENCODER = False
+
+
 def prime():
     from sim import catalog
     catalog.load()
     catalog.fixpoints()
+    _probe_actisense()
+
+
+def _probe_actisense():
+    """"Format without an encoder" is the Actisense client on this tree.  Should a tree give it one, its wire form is
+    not one this check knows the encoder's packets for: such runs are then counted, not judged (the three clients with
+    a known encoder carry the property)."""
+    global ACT_HAS_ENCODER
+    import random
+    rng = random.Random(7)
+    pkt = traffic.tagged_packet("actisense", 7)
+    plan = {"client": "actisense", "config": {}, "script": [{"a": "accept", "lat": 0.01, "stream": [["pkt", pkt.hex()]], "chunks": [len(pkt)],
+                                                             "gaps": [0.01], "start": 0.01}],
+            "ops": [{"at": 0.0, "op": "connect", "id": 0}, {"at": 1.0, "op": "send", "msg": session.sendable(rng, multi=False), "id": 1}],
+            "cb": {}, "knobs": {"min_end": 3.0, "tail": 2.0, "max_end": 60.0}}
+    try:
+        o = net.run(plan)
+        ACT_HAS_ENCODER = any(c["written"] for c in o.conns)
+    except Exception:
+        ACT_HAS_ENCODER = False
 
 
 def _with_source(js, src, bad=None, rng=None):
@@ -207,6 +230,9 @@ def _reference(kind, js):
 def execute(plan):
     o = net.run(plan)
     kind = plan["client"]
+    if kind == "actisense" and ACT_HAS_ENCODER:
+        return {"violations": [], "digest": o.digest, "stats": {"actisense_client_has_an_encoder(not judged)": 1}, "nontrivial": False,
+                "vtime": o.end_vt}
     sfx = "." + kind
     v = []
     if plan.get("unconnected"):
